@@ -4,6 +4,7 @@
 package main
 
 import (
+	"strings"
 	"bytes"
 	"fmt"
 	"io"
@@ -15,6 +16,7 @@ import (
 	"seehuhn.de/go/sfnt/glyf"
 	"seehuhn.de/go/sfnt/header"
 	"seehuhn.de/go/sfnt/zzverif/simgen"
+	"seehuhn.de/go/sfnt/zzverif/simhook"
 	"seehuhn.de/go/sfnt/zzverif/simio"
 	"seehuhn.de/go/sfnt/zzverif/tape"
 	"seehuhn.de/go/sfnt/zzverif/wk"
@@ -135,6 +137,22 @@ func buildCorpus(tier string, seed uint64) {
 		}
 		add("gen-truetype-raw-last-table", f)
 	}
+	// the same with every glyph blank: the glyf table is empty and shares its
+	// offset with the table stored after it
+	{
+		t := tape.New(tape.CaseSeed(seed, "C18-corpus-gasp", 1))
+		f := simgen.GenFont(t, simgen.KindTrueType, 0)
+		o := f.Outlines.(*glyf.Outlines)
+		for i := range o.Glyphs {
+			o.Glyphs[i] = nil
+		}
+		o.Tables = map[string][]byte{"gasp": t.Bytes(28)}
+		f.Gsub, f.Gpos, f.Gdef = nil, nil, nil
+		if f.CreationTime.IsZero() && f.ModificationTime.IsZero() {
+			f.CreationTime = f.CreationTime.AddDate(30, 0, 0)
+		}
+		add("gen-truetype-blank-raw-last-table", f)
+	}
 	// the original Go font files as they ship (table order of their producer:
 	// the last table is the raw prep program), for the read families only
 	nRaw := 2
@@ -178,6 +196,20 @@ func buildCorpus(tier string, seed uint64) {
 		}
 		cf.dir = dir
 	}
+	// the PDF flavour of the writer orders tables differently: its files
+	// of the raw-last-table fonts join the read families as files
+	var extra []*corpusFile
+	for _, cf := range corpus {
+		if cf.font != nil && strings.Contains(cf.name, "raw-last-table") && cf.ref[1] != nil {
+			dir, err := simgen.ParseDirectory(cf.ref[1])
+			if err != nil {
+				panic(err)
+			}
+			extra = append(extra, &corpusFile{name: cf.name + "(as written by WriteTrueTypePDF)", file: cf.ref[1], dir: dir,
+				ref: make([][]byte, len(writeOps)), calls: make([][]simio.WriteCall, len(writeOps))})
+		}
+	}
+	corpus = append(corpus, extra...)
 }
 
 func boundaryPoints(cf *corpusFile, oi int, width int64) []int64 {
@@ -461,7 +493,14 @@ func runWriter(c *wk.Case, cf *corpusFile, e planEntry) {
 		w.Mode = e.mode
 	}
 	w.Transient = transient
-	c.Logf("file %s (%d bytes by %s): writer fails at byte %d, mode %d", cf.name, L, op.name, e.k, e.mode)
+	errName := "a private error value"
+	if c.T.Chance(1, 3) {
+		// the error value real buffered destinations return after a short write
+		w.Err = io.ErrShortWrite
+		errName = "io.ErrShortWrite"
+		c.Count("writer_faults_reported_as_io.ErrShortWrite", 1)
+	}
+	c.Logf("file %s (%d bytes by %s): writer fails at byte %d, mode %d, with %s", cf.name, L, op.name, e.k, e.mode, errName)
 	c.Sample = map[string]any{"file": cf.name, "family": "writer fails at k", "operation": op.name, "file_len": L, "k": e.k,
 		"mode": []string{"accept exactly k bytes", "accept nothing of the failing call", "accept the whole failing call and report an error", "accept all but one byte", "transient: only this call fails"}[e.mode]}
 	var n int64
@@ -470,6 +509,9 @@ func runWriter(c *wk.Case, cf *corpusFile, e planEntry) {
 	// of freshly built tables cannot leak between cases
 	pi := c.Guard(func() { n, err = op.run(cf.font, w) })
 	if pi != nil {
+		if st, isStorm := pi.Value.(simio.Storm); isStorm {
+			c.Fail("no-termination", loc, "%s on %s: after the destination had failed for good at byte %d (mode %d, error %s) it was called %d more times: the write does not return", op.name, cf.name, e.k, e.mode, errName, st.Calls)
+		}
 		c.FailPanic(loc, pi)
 	}
 	accepted := int64(len(w.Disk))
@@ -549,7 +591,12 @@ func runReader(c *wk.Case, cf *corpusFile, e planEntry) {
 	c.Logf("file %s (%d bytes), family %s via %s, k=%d (end of table data %d)", cf.name, L, famNames[e.fam], readerNames[e.op], e.k, cf.dir.EndOfTables)
 	var f *sfnt.Font
 	var err error
-	if pi := c.Guard(func() { f, err = sfnt.Read(r) }); pi != nil {
+	// the reader builds maps (the table directory among them): their
+	// iteration order is part of the schedule
+	simhook.OrderID = uint64(c.T.Draw(4))
+	pi := c.Guard(func() { f, err = sfnt.Read(r) })
+	simhook.OrderID = 0
+	if pi != nil {
 		c.FailPanic(loc, pi)
 	}
 	faults := 0
